@@ -18,6 +18,8 @@ structure AttemptObs where
   /-- a hook of this attempt that ran BEFORE the report (challenge, clean or file hook; failures not
   allowed by its configuration) ended with a non-zero status or was killed by a signal -/
   hookFailed      : Bool := false
+  /-- the `status` handed to the post-operation hooks is not blank -/
+  statusTextPresent : Bool := true
   deriving DecidableEq, Repr, Inhabited
 
 def pauseOk (a : AttemptObs) : Bool :=
@@ -36,14 +38,30 @@ def successOnlyIfInstalled (a : AttemptObs) : Bool := !a.reportedSuccess || a.in
 that did not end with status 0 (exit code ≠ 0, or no exit code at all: killed by a signal). -/
 def failureIfHookFailed (a : AttemptObs) : Bool := !a.hookFailed || !a.reportedSuccess
 
+/-- "failure (with the error text)": a failed attempt is reported with a non-blank status. -/
+def errorTextOnFailure (a : AttemptObs) : Bool := a.reportedSuccess || a.statusTextPresent
+
 def attemptOk (a : AttemptObs) : Bool :=
-  a.postOpCount == 1 && successOnlyIfInstalled a && failureIfHookFailed a && pauseOk a &&
-    decide (a.startMs ≤ a.endMs)
+  a.postOpCount == 1 && successOnlyIfInstalled a && failureIfHookFailed a && errorTextOnFailure a &&
+    pauseOk a && decide (a.startMs ≤ a.endMs)
 
 def holds (log : List AttemptObs) : Bool := log.all attemptOk
 
 /-- Bounded time: every attempt ends within `boundMs`. -/
 def boundedOk (boundMs : Nat) (log : List AttemptObs) : Bool :=
   log.all fun a => decide (a.endMs ≤ a.startMs + boundMs)
+
+/-- What is observed of the daemon as a whole over one run (one or several certificates). -/
+structure RunObs where
+  /-- the process was still running when the observation ended (it was stopped by the observer) -/
+  processAlive  : Bool
+  /-- per certificate expected to succeed ("healthy": the CA never refuses it): was it issued and
+  reported as a success within the observation window? -/
+  healthyIssued : List Bool
+  deriving DecidableEq, Repr, Inhabited
+
+/-- "the daemon process keeps running" and "a certificate that keeps failing does not prevent other
+certificates … from being issued". -/
+def runOk (r : RunObs) : Bool := r.processAlive && r.healthyIssued.all id
 
 end AcmedVerif.Spec.C07
